@@ -35,7 +35,7 @@ from .mir import Unsupported
 from .effects import Sym, EffExec, feasible
 
 FILE_MUTATORS = ("remove_file", "File::create", "set_permissions", "::truncate", "write_all", "File::write", "fs::write", "fs::rename")
-RES_MAX = 1 << 20
+RES_MAX = 0xFFFFFF00  # reserved <= 2^32 - 256: the u32 casts of header offset and data offset cannot wrap
 H_SIZE = 24  # size_of::<H>() as configured for the generic header parameter (both flavours' Header is 24 bytes; K checks the real layout)
 
 
@@ -315,7 +315,7 @@ def check_open(mir_text, src, label, entry, readonly):
         acc = base + [z3.Not(is_err)]
         res0 = opt_field(prog, opts, "reserved")
         if res0 is not None:
-            acc.append(z3.ULE(z64(res0), RES_MAX))  # stated bound: reserved <= 2^20 (u32 casts of the header offset cannot wrap)
+            acc.append(z3.ULE(z64(res0), RES_MAX))  # stated bound: reserved <= 2^32 - 256 (u32 casts of the header offset cannot wrap)
         if feasible(ex, e.guard, acc) != z3.sat:
             continue
         n_ok += 1
